@@ -1,7 +1,7 @@
 (* proofs/C07_bridge.v — JUDGE BRIDGE for property C07 (received / rport stamping).
 
    The executable judge [SpecProxy.judge_C07_event] reads raw bytes with its own minimal reader
-   (j_read, j_flat is_via, j_via, stamped, p_set, jvia_eqb, received_on).  This file proves that it
+   (j_read, j_flat_via, j_via, stamped, p_set, jvia_eqb, received_on).  This file proves that it
    ACCEPTS (returns 0) what the MODEL emits for a datagram, for every configuration, listener,
    source, state and every message whose Via header values are reference renderings of
    well-formed Via entry lists of the C14 grammar (any layout: comma lists, repeated lines, compact
@@ -142,20 +142,26 @@ Qed.
 
 (* ---- the judge's reading of the reference text of an abstract entry ---- *)
 Definition a_pair (p : a_param) : bytes * bytes := (ap_key p, match ap_val p with Some v => v | None => [] end).
+(* The judge reads every entry of a comma list with its LEFT end trimmed like strings.TrimSpace
+   ([j_trim_via]): the protocol name it sees is the name without leading Unicode white space ([safe]
+   allows bytes >= 128, so a name of the grammar may begin with, say, C2 85).  The name is compared,
+   never interpreted, and it is read the same way in the received message and in the relayed one. *)
+Definition via_proto_t (a : a_via) : bytes :=
+  trim_left_go (av_name a) ++ "/"%char :: av_version a ++ "/"%char :: av_transport a.
 Definition ja_of (a : a_via) : jvia :=
-  {| jv_proto := via_proto a; jv_transport := av_transport a; jv_host := av_host a; jv_port := av_port a;
+  {| jv_proto := via_proto_t a; jv_transport := av_transport a; jv_host := av_host a; jv_port := av_port a;
      jv_params := map a_pair (av_params a) |}.
 Definition pair_of (p : kv) : bytes * bytes := (k_key p, k_val p).
-(* ... of a concrete entry: what j_via (via_param_print v) is *)
+(* ... of a concrete entry: what j_via (j_trim_via (via_param_print v)) is *)
 Definition jv_of (v : via_param) : jvia :=
-  {| jv_proto := v_name v ++ "/"%char :: v_version v ++ "/"%char :: v_transport v;
+  {| jv_proto := trim_left_go (v_name v) ++ "/"%char :: v_version v ++ "/"%char :: v_transport v;
      jv_transport := v_transport v; jv_host := v_host v;
      jv_port := if Z.eqb (v_port v) 0 then None else Some (v_port v);
      jv_params := map pair_of (v_params v) |}.
 
 Lemma ja_of_unembed v : ja_of (unembed_via v) = jv_of v.
 Proof.
-  unfold ja_of, jv_of, unembed_via, via_proto.
+  unfold ja_of, jv_of, unembed_via, via_proto_t.
   cbn [av_name av_version av_transport av_host av_port av_params].
   f_equal. rewrite map_map. apply map_ext. intros [k [|c x]]; reflexivity.
 Qed.
@@ -176,41 +182,7 @@ Proof.
   apply j_kv_rp_param. rewrite forallb_forall in H. apply H. exact Hp.
 Qed.
 
-Theorem j_via_rp a : wf_via a = true -> j_via (rp_via1 a) = Some (ja_of a).
-Proof.
-  intros H. pose proof (wf_via_inv a H) as (_ & _ & _ & _ & Hport & Hps).
-  unfold j_via. rewrite rp_via1_shape.
-  rewrite split_semi_params by (try apply via_head_no_semi; assumption).
-  cbv beta iota.
-  rewrite via_head_fields by exact H. cbv beta iota.
-  rewrite via_proto_split by exact H. cbv beta iota.
-  rewrite via_sentby_split by exact H.
-  rewrite map_j_kv_params by exact Hps.
-  unfold ja_of. destruct (av_port a) as [z|].
-  - cbn [wf_port] in Hport. cbv beta iota zeta. rewrite atoi_itoa_port by exact Hport. reflexivity.
-  - reflexivity.
-Qed.
-
-(* ---- an entry's text has no blank at either end: the judge's trim_space leaves it alone ---- *)
-Lemma trim_space_ends x :
-  match x with c :: _ => is_space c = false | [] => True end ->
-  match rev x with c :: _ => is_space c = false | [] => True end -> trim_space x = x.
-Proof.
-  intros H1 H2. unfold trim_space, trim_right. rewrite (trim_left_fix x H1), (trim_left_fix (rev x) H2).
-  apply rev_involutive.
-Qed.
-
-Lemma trim_space_two p q : p <> [] -> q <> [] -> nospace p -> nospace q ->
-  trim_space (p ++ " "%char :: q) = p ++ " "%char :: q.
-Proof.
-  intros Hp Hq Np Nq. apply trim_space_ends.
-  - destruct p as [|c p']; [exfalso; apply Hp; reflexivity|]. cbn [app]. apply Np. left. reflexivity.
-  - rewrite rev_app_distr. cbn [rev].
-    destruct (rev q) as [|d r] eqn:E.
-    + exfalso. apply Hq. rewrite <- (rev_involutive q), E. reflexivity.
-    + cbn [app]. apply Nq. apply in_rev. rewrite E. left. reflexivity.
-Qed.
-
+(* ---- the text of an entry of the grammar: no blank inside its two halves ---- *)
 Lemma via_proto_text a : wf_via a = true -> via_proto a <> [] /\ nospace (via_proto a).
 Proof.
   intros H. apply wf_via_inv in H. destruct H as (Hn & Hv & Ht & _).
@@ -259,10 +231,109 @@ Proof.
   - apply nospace_app; [exact S2|apply rp_params_nospace; exact Hps].
 Qed.
 
-Lemma rp_via1_trim a : wf_via a = true -> trim_space (rp_via1 a) = rp_via1 a.
+(* ---- strings.TrimSpace at the LEFT end of an entry (what [j_trim_via] does there) ---- *)
+(* an ASCII byte that is not a blank stops the left trim, whatever precedes it *)
+Lemma trim_left_u_sep p2 p3 (NA : seq_nonascii p2 p3) d T : is_ascii d = true -> is_space d = false ->
+  forall x, trim_left_u p2 p3 (x ++ d :: T) = trim_left_u p2 p3 x ++ d :: T.
 Proof.
-  intros H. rewrite rp_via1_two. destruct (rp_via1_parts a H) as (A & B & C & D).
-  apply trim_space_two; assumption.
+  intros Ad Sd x. pattern x. apply bytes_ind_len. clear x. intros x IH.
+  destruct x as [|c r].
+  - cbn [app trim_left_u]. rewrite Sd. destruct T as [|c2 r2]; [reflexivity|].
+    rewrite (p2_ascii_l _ _ NA _ _ Ad). destruct r2 as [|c3 r3]; [reflexivity|].
+    rewrite (p3_ascii_1 _ _ NA _ _ _ Ad). reflexivity.
+  - cbn [app trim_left_u]. destruct (is_space c) eqn:Ec; [apply IH; cbn [List.length]; lia|].
+    destruct r as [|c2 r2].
+    + cbn [app]. rewrite (p2_ascii_r _ _ NA _ _ Ad). destruct T as [|c3 r3]; [reflexivity|].
+      rewrite (p3_ascii_2 _ _ NA _ _ _ Ad). reflexivity.
+    + cbn [app]. destruct (p2 c c2) eqn:E2; [apply IH; cbn [List.length]; lia|].
+      destruct r2 as [|c3 r3].
+      * cbn [app]. rewrite (p3_ascii_3 _ _ NA _ _ _ Ad). reflexivity.
+      * cbn [app]. destruct (p3 c c2 c3) eqn:E3; [apply IH; cbn [List.length]; lia|]. reflexivity.
+Qed.
+Lemma trim_left_go_sep d T x : is_ascii d = true -> is_space d = false ->
+  trim_left_go (x ++ d :: T) = trim_left_go x ++ d :: T.
+Proof. intros Ad Sd. exact (trim_left_u_sep usp2 usp3 usp_nonascii d T Ad Sd x). Qed.
+Lemma trim_left_go_in c s : In c (trim_left_go s) -> In c s.
+Proof. intros I. destruct (trim_left_go_split s) as [w E]. rewrite E. apply in_or_app. right. exact I. Qed.
+Lemma trim_left_go_idem s : trim_left_go (trim_left_go s) = trim_left_go s.
+Proof. exact (trim_left_u_idem usp2 usp3 s). Qed.
+Lemma jt_lead p : j_trim_via (trim_left_go p) = j_trim_via p.
+Proof. unfold j_trim_via. rewrite trim_left_go_idem. reflexivity. Qed.
+
+Lemma trim_right_fix s : match rev s with c :: _ => is_space c = false | [] => True end -> trim_right s = s.
+Proof. intros H. unfold trim_right. rewrite (trim_left_fix _ H). apply rev_involutive. Qed.
+Lemma rev_tail_nospace (A B : bytes) : B <> [] -> nospace B ->
+  match rev (A ++ B) with c :: _ => is_space c = false | [] => True end.
+Proof.
+  intros NE H. rewrite rev_app_distr. destruct (rev B) as [|c t] eqn:E.
+  - apply (f_equal (@rev ascii)) in E. rewrite rev_involutive in E. contradiction.
+  - cbn [app]. apply H. apply in_rev. rewrite E. left. reflexivity.
+Qed.
+
+(* the text of an entry as the judge trims it: the name loses its leading Unicode white space, if
+   any; nothing else changes (the text ends with a byte that is no blank) *)
+Lemma jt_rp_via1 a : wf_via a = true ->
+  j_trim_via (rp_via1 a) = via_proto_t a ++ " "%char :: (via_sentby a ++ rp_params (av_params a)).
+Proof.
+  intros H. destruct (rp_via1_parts a H) as (_ & B & _ & D).
+  assert (E : rp_via1 a = av_name a ++ "/"%char :: av_version a ++ "/"%char :: av_transport a ++ " "%char ::
+                          (via_sentby a ++ rp_params (av_params a))).
+  { unfold rp_via1, via_sentby. rewrite <- (app_assoc (av_host a)). reflexivity. }
+  unfold j_trim_via. rewrite E, (trim_left_go_sep "/"%char) by reflexivity.
+  assert (EY : trim_left_go (av_name a) ++ "/"%char :: av_version a ++ "/"%char :: av_transport a ++ " "%char ::
+                 (via_sentby a ++ rp_params (av_params a))
+               = via_proto_t a ++ " "%char :: (via_sentby a ++ rp_params (av_params a))).
+  { unfold via_proto_t. repeat (rewrite <- app_assoc; cbn [app]). reflexivity. }
+  rewrite EY. apply trim_right_fix.
+  replace (via_proto_t a ++ " "%char :: (via_sentby a ++ rp_params (av_params a)))
+    with ((via_proto_t a ++ [" "%char]) ++ (via_sentby a ++ rp_params (av_params a)))
+    by (rewrite <- app_assoc; reflexivity).
+  apply rev_tail_nospace; assumption.
+Qed.
+
+Lemma via_proto_t_in a c : In c (via_proto_t a) -> In c (via_proto a).
+Proof.
+  unfold via_proto_t, via_proto. intros I. apply in_app_or in I. apply in_or_app.
+  destruct I as [I|I]; [left; exact (trim_left_go_in _ _ I)|right; exact I].
+Qed.
+Lemma via_head_t_in a c : In c (via_proto_t a ++ " "%char :: via_sentby a) -> In c (via_head a).
+Proof.
+  unfold via_head. intros I. apply in_app_or in I. apply in_or_app.
+  destruct I as [I|I]; [left; exact (via_proto_t_in _ _ I)|right; exact I].
+Qed.
+Lemma via_proto_t_split a : wf_via a = true ->
+  split_byte "/"%char (via_proto_t a) = [trim_left_go (av_name a); av_version a; av_transport a].
+Proof.
+  intros H. apply wf_via_inv in H. destruct H as (Hn & Hv & Ht & _).
+  apply safe1_inv in Hn, Hv, Ht. destruct Hn as [_ Hn], Hv as [_ Hv], Ht as [_ Ht].
+  unfold via_proto_t.
+  rewrite split_byte_app by (intros I; exact (safe_no_slash _ Hn (trim_left_go_in _ _ I))).
+  rewrite split_byte_app by (apply safe_no_slash; exact Hv).
+  rewrite split_byte_single by (apply safe_no_slash; exact Ht). reflexivity.
+Qed.
+
+(* the judge's reading of the (trimmed) reference text of an abstract entry *)
+Theorem j_via_rp a : wf_via a = true -> j_via (j_trim_via (rp_via1 a)) = Some (ja_of a).
+Proof.
+  intros H. pose proof (wf_via_inv a H) as (_ & _ & _ & _ & Hport & Hps).
+  destruct (via_proto_text a H) as [_ P2]. destruct (via_sentby_text a H) as [S1 S2].
+  rewrite (jt_rp_via1 a H).
+  replace (via_proto_t a ++ " "%char :: (via_sentby a ++ rp_params (av_params a)))
+    with ((via_proto_t a ++ " "%char :: via_sentby a) ++ rp_params (av_params a))
+    by (rewrite <- app_assoc; reflexivity).
+  unfold j_via.
+  rewrite split_semi_params; [|intros I; exact (via_head_no_semi a H (via_head_t_in _ _ I))|exact Hps].
+  cbv beta iota.
+  rewrite (fields_two (via_proto_t a) (via_sentby a));
+    [|unfold via_proto_t; destruct (trim_left_go (av_name a)); discriminate|exact S1
+     |intros c I; exact (P2 c (via_proto_t_in _ _ I))|exact S2].
+  cbv beta iota.
+  rewrite via_proto_t_split by exact H. cbv beta iota.
+  rewrite via_sentby_split by exact H.
+  rewrite map_j_kv_params by exact Hps.
+  unfold ja_of. destruct (av_port a) as [z|].
+  - cbn [wf_port] in Hport. cbv beta iota zeta. rewrite atoi_itoa_port by exact Hport. reflexivity.
+  - reflexivity.
 Qed.
 
 Lemma rp_via1_lf a : wf_via a = true -> lf_free (rp_via1 a).
@@ -276,14 +347,14 @@ Qed.
 
 (* ---- a header value: comma list ---- *)
 Definition jline (x : bytes) : option (list jvia) :=
-  opt_all (map j_via (map trim_space (split_byte ","%char x))).
+  opt_all (map j_via (map j_trim_via (split_byte ","%char x))).
 
 Lemma jline_rp al : al <> [] -> forallb wf_via al = true -> jline (rp_via al) = Some (map ja_of al).
 Proof.
   intros NE H. rewrite forallb_forall in H. unfold jline, rp_via.
   rewrite split_join.
   - rewrite !map_map. apply opt_all_map_some. intros a Ha. cbv beta.
-    rewrite rp_via1_trim by (apply H; exact Ha). apply j_via_rp. apply H. exact Ha.
+    apply j_via_rp. apply H. exact Ha.
   - destruct al; [exfalso; apply NE; reflexivity|discriminate].
   - apply Forall_forall. intros s Hs. apply in_map_iff in Hs. destruct Hs as (v & <- & Hv).
     apply rp_via1_no_comma. apply H. exact Hv.
@@ -332,6 +403,32 @@ Proof.
   unfold rclean. intros Hn Hd. rewrite !rev_app_distr. cbn [rev]. rewrite <- !app_assoc. cbn [app].
   intros H. rewrite (lstuck_sep _ _ uspr_nonascii (rev n) d (rev t') (rev t)); [exact H| |exact Hd].
   intros E. apply Hn. rewrite <- (rev_involutive n), E. reflexivity.
+Qed.
+
+(* the right end of a suffix is the right end of the whole *)
+Lemma rclean_suffix a b : rclean (a ++ b) -> rclean b.
+Proof. unfold rclean. rewrite rev_app_distr. apply lstuck_prefix. Qed.
+(* a value whose right end is clean: strings.TrimSpace only works at its left end *)
+Lemma rclean_trim s : rclean s -> trim_space_go s = trim_left_go s.
+Proof.
+  intros R. unfold trim_space_go. destruct (trim_left_go_split s) as [w E].
+  rewrite E in R. apply rclean_suffix in R. unfold rclean in R.
+  unfold trim_right_go, trim_left_go_r. rewrite (lstuck_fix _ _ _ R). apply rev_involutive.
+Qed.
+(* the judge's entries of a comma list read through TrimSpace at its left end = its entries of the
+   list itself (the left end of the first entry is trimmed anyway) *)
+Lemma entries_lead l : l <> [] -> Forall (fun x => ~ In ","%char x) l ->
+  map j_trim_via (split_byte ","%char (trim_left_go (join_byte ","%char l))) = map j_trim_via l.
+Proof.
+  intros NE F. destruct l as [|p [|q r]]; [contradiction| |].
+  - cbn [join_byte]. inversion F as [|? ? Hp _]; subst.
+    rewrite split_byte_single by (intros I; exact (Hp (trim_left_go_in _ _ I))).
+    cbn [map]. rewrite jt_lead. reflexivity.
+  - rewrite join_byte_cons2 by discriminate. rewrite (trim_left_go_sep ","%char) by reflexivity.
+    inversion F as [|? ? Hp Fq]; subst.
+    rewrite split_byte_app by (intros I; exact (Hp (trim_left_go_in _ _ I))).
+    rewrite split_join; [|discriminate|exact Fq].
+    cbn [map]. rewrite jt_lead. reflexivity.
 Qed.
 
 Lemma lclean_ascii_start c r : is_ascii c = true -> is_space c = false -> lclean (c :: r).
@@ -533,9 +630,11 @@ Definition dec_ok (s : bytes) : Prop :=
   (forall f, parse_fromto s = Ok f -> lf_free (fromto_print f)) /\
   (forall c, parse_cseq s = Ok c -> lf_free (cseq_print c)) /\
   (forall l, parse_route s = Ok l -> rl_ok l).
-(* a decoded Via header: entries of the grammar, and TrimSpace leaves the printed value alone *)
+(* a decoded Via header: entries of the grammar, and TrimSpace leaves the RIGHT end of the printed
+   value alone.  (Its left end may begin with Unicode white space once the entries in front have been
+   popped: the judge trims the left end of every entry, [j_trim_via], so that does not matter.) *)
 Definition vl_ok (l : list via_param) : Prop :=
-  l <> [] /\ forallb vp_ok l = true /\ trim_space_go (via_print l) = via_print l.
+  l <> [] /\ forallb vp_ok l = true /\ rclean (via_print l).
 
 Definition good_h (h : header) : Prop :=
   hname_ok (h_name h) /\
@@ -636,16 +735,11 @@ Proof.
   intros Hs (_ & OK & TR). cbn [forallb] in OK. apply andb_true_iff in OK. destruct OK as [Ov Or].
   split; [discriminate|]. split.
   - cbn [forallb]. rewrite (stamp_vp_ok peer port v (proj1 Hs) Ov), Or. reflexivity.
-  - apply trim_fix_iff in TR. destruct TR as [TL TRr]. apply trim_fix_iff.
-    pose proof (proj1 (vp_ok_iff v) Ov) as (Hn & _ & _ & _ & _ & PK).
-    apply safe1_inv in Hn. destruct Hn as [Hn _]. split.
-    + destruct (via_print_head v rest) as [T E]. destruct (via_print_head (C07.stamp peer port v) rest) as [T' E'].
-      cbn [C07.stamp v_name] in E'. rewrite E in TL. rewrite E'.
-      exact (lclean_sep _ "/"%char _ _ Hn eq_refl TL).
-    + destruct rest as [|r0 rs].
-      * rewrite via_print_one in *. apply stamp_rclean; assumption.
-      * rewrite via_print_cons2 in *.
-        exact (rclean_sep _ ","%char _ _ (via_print_nonnil r0 rs) eq_refl TRr).
+  - pose proof (proj1 (vp_ok_iff v) Ov) as (_ & _ & _ & _ & _ & PK).
+    destruct rest as [|r0 rs].
+    + rewrite via_print_one in *. apply stamp_rclean; assumption.
+    + rewrite via_print_cons2 in *.
+      exact (rclean_sep _ ","%char _ _ (via_print_nonnil r0 rs) eq_refl TR).
 Qed.
 
 (* ---- the proxy's own entry ---- *)
@@ -661,15 +755,11 @@ Proof.
     split; [reflexivity|]. split; [reflexivity|]. split; [unfold t_proto; destruct (t_kind t); reflexivity|].
     split; [exact Ha|]. split; [exact Hp|].
     cbn [forallb]. unfold pk_ok. cbn [k_key k_val]. rewrite Hb1. reflexivity.
-  - rewrite via_print_one. apply trim_fix_iff. split.
-    + destruct (print_head_name (C07.own_via br t)) as [T E]. rewrite E.
-      change (v_name (C07.own_via br t)) with ("S"%char :: s2b "IP"). cbn [app].
-      apply lclean_ascii_start; reflexivity.
-    + rewrite print_vhead.
-      change (v_params (C07.own_via br t)) with [{| k_key := s2b "branch"; k_val := br |}].
-      rewrite print_params_one. apply rclean_sep_clean.
-      * apply kv_print_nonnil. discriminate.
-      * apply kv_print_clean; [reflexivity|apply ok_clean; assumption].
+  - rewrite via_print_one. rewrite print_vhead.
+    change (v_params (C07.own_via br t)) with [{| k_key := s2b "branch"; k_val := br |}].
+    rewrite print_params_one. apply rclean_sep_clean.
+    + apply kv_print_nonnil. discriminate.
+    + apply kv_print_clean; [reflexivity|apply ok_clean; assumption].
 Qed.
 
 Lemma t_ok_addr br t : t_ok br t -> lf_free (t_addr t).
@@ -1097,9 +1187,28 @@ Qed.
 (* ====================================================================== Part 6: what the judge reads *)
 (* the entries the judge extracts from one header (name, value) *)
 Definition jentries (p : bytes * bytes) : list bytes :=
-  if is_via (fst p) then map trim_space (split_byte ","%char (snd p)) else [].
-Lemma j_flat_entries hs : j_flat is_via hs = flat_map jentries hs.
+  if is_via (fst p) then map j_trim_via (split_byte ","%char (snd p)) else [].
+Lemma j_flat_entries hs : j_flat_via hs = flat_map jentries hs.
 Proof. reflexivity. Qed.
+
+Lemma via_param_print_no_comma v : vp_ok v = true -> ~ In ","%char (via_param_print v).
+Proof. intros H. rewrite (vp_print_rp v H). apply rp_via1_no_comma. exact H. Qed.
+
+(* one header value as [j_header] hands it over (TrimSpace), cut at the commas, every entry trimmed *)
+Lemma jline_value l : vl_ok l ->
+  opt_all (map j_via (map j_trim_via (split_byte ","%char (trim_space_go (via_print l))))) = Some (map jv_of l).
+Proof.
+  intros (NE & OK & TR). rewrite (rclean_trim _ TR). unfold via_print.
+  rewrite entries_lead.
+  - rewrite <- (jline_print l NE OK). unfold jline, via_print.
+    rewrite split_join; [reflexivity| |].
+    + destruct l; [contradiction|discriminate].
+    + apply Forall_forall. intros s Hs. apply in_map_iff in Hs. destruct Hs as (v & <- & Hv).
+      rewrite forallb_forall in OK. exact (via_param_print_no_comma v (OK v Hv)).
+  - destruct l; [contradiction|discriminate].
+  - apply Forall_forall. intros s Hs. apply in_map_iff in Hs. destruct Hs as (v & <- & Hv).
+    rewrite forallb_forall in OK. exact (via_param_print_no_comma v (OK v Hv)).
+Qed.
 
 Lemma via_view_cons_gen h r :
   via_view (h :: r) = if is_via_name (h_name h) then hval_vias (h_val h) :: via_view r else via_view r.
@@ -1108,11 +1217,11 @@ Proof. unfold via_view, via_headers. cbn [filter]. destruct (is_via_name (h_name
 Lemma jentries_via h l : good_h h -> is_via_name (h_name h) = true -> hval_vias (h_val h) = Some l ->
   opt_all (map j_via (jentries (jpair (hpair h)))) = Some (map jv_of l).
 Proof.
-  intros Gh Hn Hv. destruct (good_via_h h Gh Hn) as (l' & Hv' & (NE & OK & TR) & Hp).
+  intros Gh Hn Hv. destruct (good_via_h h Gh Hn) as (l' & Hv' & VL & Hp).
   rewrite Hv in Hv'. injection Hv' as <-.
   assert (Ev : is_via (h_name h) = true) by (rewrite <- same_header_via; exact Hn).
   unfold jentries, jpair, hpair. cbn [fst snd]. rewrite Ev, Hp.
-  rewrite trim_space_go_sp by reflexivity. rewrite TR. exact (jline_print l NE OK).
+  rewrite trim_space_go_sp by reflexivity. exact (jline_value l VL).
 Qed.
 Lemma jentries_other h : is_via_name (h_name h) = false -> jentries (jpair (hpair h)) = [].
 Proof.
@@ -1122,7 +1231,7 @@ Qed.
 
 (* every Via header good: the judge reads the decoded entries *)
 Theorem via_read hs : Forall (fun h => is_via_name (h_name h) = true -> good_h h) hs ->
-  opt_all (map j_via (j_flat is_via (map (fun h => jpair (hpair h)) hs))) =
+  opt_all (map j_via (j_flat_via (map (fun h => jpair (hpair h)) hs))) =
   Some (map jv_of (flat_view (via_view hs))).
 Proof.
   rewrite j_flat_entries. induction 1 as [|h r Gh Gr IH]; [reflexivity|].
@@ -1532,7 +1641,7 @@ Proof.
   - split; [destruct al; [exfalso; apply NE; reflexivity|discriminate]|]. split.
     + apply forallb_forall. intros v Iv. apply in_map_iff in Iv. destruct Iv as (a & <- & Ia).
       apply vp_ok_embed. rewrite forallb_forall in W. exact (W a Ia).
-    + rewrite via_print_embed by exact W. exact T.
+    + rewrite via_print_embed by exact W. exact (proj2 (proj1 (trim_fix_iff _) T)).
   - apply via_print_embed. exact W.
 Qed.
 
@@ -1586,7 +1695,7 @@ Definition jcheck (want ovs : list jvia) : nat :=
 Definition jout (want : list jvia) (o : bytes * bytes) : nat :=
   match j_read (snd o) with
   | Some om =>
-      match opt_all (map j_via (j_flat is_via (jm_headers om))) with
+      match opt_all (map j_via (j_flat_via (jm_headers om))) with
       | Some ovs => jcheck want ovs
       | None => 2%nat
       end
@@ -1598,7 +1707,7 @@ Lemma judge_C07_udp_unfold pc st li src sport data outs closed :
   match j_read data, nth_opt (c_listens (pc_cfg pc)) li with
   | Some m, Some lc =>
       if (negb (j_is_response m) && jm_has_cl m && (negb false || single_message m))%bool then
-        match opt_all (map j_via (j_flat is_via (jm_headers m))) with
+        match opt_all (map j_via (j_flat_via (jm_headers m))) with
         | Some (v1 :: vrest) =>
             first_nonzero (map (jout (stamped (received_on lc) src sport v1 :: vrest)) (msgs_of outs))
         | _ => O
@@ -1870,6 +1979,33 @@ Qed.
 Example C07_bridge_ex_sensitive :
   judge_C07_event ex_pc (js_init ex_cfg) (EvUdp 0 ex_src 40000 ex_data) [(s2b "udp:10.0.0.2:5070", ex_data)] [] = 1%nat.
 Proof. vm_compute. reflexivity. Qed.
+
+(* WHY THE RIGHT END OF A VIA ENTRY IS NOT READ THROUGH strings.TrimSpace (SpecProxy.j_flat_via: left end
+   TrimSpace, right end ASCII blanks only).  The top entry is followed by a comma and its last parameter
+   value ends with U+00A0 (bytes C2 A0; inside the C14 grammar: [val_char] allows bytes >= 128).  ParseVia
+   keeps the parameter as it stands and the proxy writes ";received=..." BEHIND it, so the two bytes are
+   still part of the value of x in what is relayed.  The judge accepts (it is inside the domain of
+   C07_judge_bridge_udp); a reader that trimmed the right end of the received entry with TrimSpace
+   semantics would read x=a, stamp, find x=a<C2 A0> in the output and reject a correct relay. *)
+Definition nbsp : bytes := [ascii_of_nat 194; ascii_of_nat 160].
+Definition ex_top : bytes := s2b "SIP/2.0/UDP 10.9.9.9:5070;x=a" ++ nbsp.
+Definition ex_tail_data : bytes :=
+  ln "INVITE sip:bob@example.com SIP/2.0" ++
+  s2b "Via: " ++ ex_top ++ s2b ",SIP/2.0/TCP 10.8.8.8;branch=z9hG4bKdef" ++ crlf ++
+  flat_map ln ["Route: <sip:10.0.0.2:5070;lr>"; "From: <sip:a@example.com>;tag=1"; "To: <sip:bob@example.com>";
+               "Call-ID: c1"; "CSeq: 1 INVITE"; "Content-Length: 0"] ++ crlf.
+Definition ex_tail_outs : list output :=
+  match proxy_step all_fixed ex_cfg 0 ex_br (init_state ex_cfg 0 []) (EvUdp 0 ex_src 40000 ex_tail_data) with
+  | Ok (_, o) => o | _ => [] end.
+Example C07_bridge_ex_tail :
+  via_domain_b (match parse_message ex_tail_data with Ok (m, _) => m | _ => dummy end) = true /\
+  existsb (fun e => beq e (ex_top ++ s2b ";received=127.0.0.9"))
+          (flat_map (fun o => match j_read (snd o) with Some om => j_flat_via (jm_headers om) | None => [] end)
+                    (map lab ex_tail_outs)) = true /\
+  judge_C07_event ex_pc (js_init ex_cfg) (EvUdp 0 ex_src 40000 ex_tail_data) (map lab ex_tail_outs) [] = O /\
+  option_map jv_params (j_via (j_trim_via ex_top)) = Some [(s2b "x", s2b "a" ++ nbsp)] /\
+  option_map jv_params (j_via (trim_space_go ex_top)) = Some [(s2b "x", s2b "a")].
+Proof. repeat split; vm_compute; reflexivity. Qed.
 End C07_bridge_example.
 
 Print Assumptions j_via_rp.
